@@ -32,7 +32,10 @@ RULE = ("histories: screens with 1-8 plates (1..14 rows quick, ..40 thorough; ev
         "the run continues from the unchanged screen as a further history; exhaustive part: every subset of plate ids from a masked screen (<= 5 plates), "
         "every pair of subsets for <= 3 plates.  constructor stream: mixed plate / observations without mask / nothing / mask "
         "without observations / valid uniform mask.  set_observed stream: random selections (right, wrong length), values of "
-        "length count / 1 / wrong.  Non-trivial history: >= 2 plates and a successful reveal that newly reveals a plate "
+        "length count / 1 / wrong.  combine stream: Screen.combine / Screen.concat of 1-3 screens over a shared pool of plate names, each part "
+        "wholly observed or wholly masked (an observed and a masked screen sharing a plate name must be refused, also when the "
+        "plate's rows are interleaved with other plates), one status per plate across parts, or random; other control name / arity; "
+        "inputs snapshotted and compared.  Non-trivial history: >= 2 plates and a successful reveal that newly reveals a plate "
         "while another plate stays hidden.  Non-mutation (aliasing) clause: every screen object is snapshotted before an "
         "operation and compared after it, every screen of the chain is compared again at the end of the history and (half of the "
         "histories) with the h5 copy saved when it was created; histories BRANCH: at 45% of the library reveals a second, different "
@@ -60,6 +63,7 @@ SIG_CTOR_MIXED = "C12:ctor-accepts-mixed-plate"
 SIG_CTOR = "C12:ctor-defaults"
 SIG_SETOBS = "C12:set-observed"
 SIG_INPUT = "C12:input-mutated"
+SIG_COMBINE = "C12:combine-result"
 
 
 # ------------------------------------------------------------------------------------------------
@@ -756,6 +760,137 @@ def run_ctor_case(case, res):
 
 
 # ------------------------------------------------------------------------------------------------
+# combine / concat stream: the union of screens goes through the constructor's per-plate check
+# ------------------------------------------------------------------------------------------------
+
+def gen_combine_case(rng, n_max):
+    """k screens over one shared pool of plate names.  `status`: 'split' = each part wholly observed or wholly masked (an
+    observed and a masked screen sharing plate names: the union has mixed plates unless the parts' plates are disjoint),
+    'global' = one status per plate name for all parts (the union is uniform although rows of a plate are spread over
+    the parts, interleaved with other plates), 'random' = a plate-uniform mask per part."""
+    k = rng.choice([1, 2, 2, 2, 2, 3, 3])
+    ppool = rng.sample(S.NAME_POOL, rng.randint(1, 4))
+    status = rng.choice(["split", "split", "global", "global", "random"])
+    glob = {p: rng.random() < 0.5 for p in ppool}
+    arity = rng.choice([1, 2, 2])
+    ctrl = rng.choice(["", "control", "dmso"])
+    parts = []
+    for i in range(k):
+        while True:
+            raw = S.gen_raw(rng, n_max=n_max, arity=arity, ctrl=ctrl, doses=rng.sample(TAME_DOSES, rng.randint(2, 4)))
+            if len(raw["snames"]) >= 1:
+                break
+        mine = ppool if rng.random() < 0.7 else rng.sample(ppool, rng.randint(1, len(ppool)))
+        raw["pnames"] = [rng.choice(mine) for _ in raw["snames"]]
+        fill_observations(rng, raw)
+        if status == "split":
+            whole = rng.random() < 0.5
+            raw["mask"] = None if (whole and rng.random() < 0.5) else [whole] * len(raw["pnames"])
+        elif status == "global":
+            raw["mask"] = [glob[p] for p in raw["pnames"]]
+        else:
+            st = {p: rng.random() < 0.5 for p in sorted(set(raw["pnames"]))}
+            raw["mask"] = [st[p] for p in raw["pnames"]]
+        if rng.random() < 0.15:
+            try:
+                raw["tmap"], raw["smap"] = S.superset_mappings(rng, raw)
+                raw["tmap"] = [[str(a) for a in raw["tmap"][0]], [float(b) for b in raw["tmap"][1]], [int(c) for c in raw["tmap"][2]]]
+                raw["smap"] = [[str(a) for a in raw["smap"][0]], [int(c) for c in raw["smap"][1]]]
+            except Exception:
+                raw["tmap"] = raw["smap"] = None
+        parts.append(raw)
+    odd = None
+    z = rng.random()
+    if k >= 2 and z < 0.05:                      # another control name: refused before anything is looked at
+        parts[-1]["ctrl"] = ctrl + "x"
+        parts[-1]["tmap"] = parts[-1]["smap"] = None
+        odd = "ctrl"
+    elif k >= 2 and z < 0.10:                    # another arity: np.concatenate refuses
+        r = parts[-1]
+        r["arity"] = arity + 1
+        r["tnames"] = [row + [row[0]] for row in r["tnames"]]
+        r["tdoses"] = [row + [row[0]] for row in r["tdoses"]]
+        r["tmap"] = r["smap"] = None
+        odd = "arity"
+    return {"kind": "combine", "status": status, "odd": odd, "via": "combine" if k == 2 and rng.random() < 0.5 else "concat",
+            "parts": parts, "parts_obs_bits": [obs_bits_list(r) for r in parts]}
+
+
+def combine_parts(case):
+    out = []
+    for raw, ob in zip(case["parts"], case["parts_obs_bits"]):
+        raw = dict(raw)
+        if ob is not None:
+            raw["obs"] = [S.from_bits(b) for b in ob]
+        if raw.get("tmap") is not None:
+            raw["tmap"] = tuple(list(x) for x in raw["tmap"])
+            raw["smap"] = tuple(list(x) for x in raw["smap"])
+        out.append(raw)
+    return out
+
+
+def run_combine_case(case, res):
+    from batchie.data import Screen
+    raws = combine_parts(case)
+    objs = [S.build(r) for r in raws]
+    snaps = [observables(o) for o in objs]
+    exc = new = None
+    try:
+        if case["via"] == "combine":
+            new = objs[0].combine(objs[1])
+        else:
+            new = Screen.concat(list(objs))
+    except Exception as e:
+        exc = e
+    for o, sn in zip(objs, snaps):
+        check_input(res, case, o, sn, "Screen.%s" % case["via"])
+    pn = [p for sn in snaps for p in sn["plate_names"]]
+    mk = [m for sn in snaps for m in sn["observation_mask"]]
+    ob = [b for sn in snaps for b in sn["observations"]]
+    # judged pairwise along the left fold, as the text says: no step may produce a partly observed plate
+    mixed = any(any(v) and not all(v) for v in groups(pn, mk).values())
+    bad_args = len(set(r["ctrl"] for r in raws)) > 1 or len(set(r["arity"] for r in raws)) > 1
+    if exc is not None:
+        out = S.err_tok(exc)
+        if not isinstance(exc, ValueError):
+            res.fail("Screen.%s raises something other than ValueError" % case["via"], case, "%s: %s" % (type(exc).__name__, exc),
+                     "ValueError or the combined screen", signature=SIG_RAISES)
+        elif not (mixed or bad_args):
+            res.fail("Screen.%s refuses screens whose union has no partly observed plate" % case["via"], case,
+                     "%s: %s" % (type(exc).__name__, exc), {"plate_names": pn, "mask": mk}, signature=SIG_COMBINE)
+        return out
+    after = observables(new)
+    out = show_stage(new)
+    if len(objs) == 1:
+        if new is not objs[0]:
+            res.fail("Screen.concat of one screen does not return that screen", case, "another object", "the screen", signature=SIG_COMBINE)
+        return out
+    if mixed and not bad_args:
+        res.fail("Screen.%s of an observed and an unobserved part of the same plate returns a screen" % case["via"], case,
+                 {"plate_names": after["plate_names"], "mask": after["observation_mask"]}, "ValueError", signature=SIG_CTOR_MIXED)
+        return out
+    if bad_args:
+        res.fail("Screen.%s accepts screens with different control names / arities" % case["via"], case, "a screen", "ValueError",
+                 signature=SIG_COMBINE)
+        return out
+    check_uniform(res, case, after, "after Screen.%s" % case["via"])
+    want = {"plate_names": pn, "observation_mask": mk, "observations": ob,
+            "sample_names": [x for sn in snaps for x in sn["sample_names"]],
+            "treatment_names": [x for sn in snaps for x in sn["treatment_names"]],
+            "treatment_doses": [x for sn in snaps for x in sn["treatment_doses"]]}
+    for f, v in want.items():
+        if after[f] != v:
+            res.fail("Screen.%s changes the %s of its rows" % (case["via"], f), case, {f: after[f]}, {f: v}, signature=SIG_COMBINE)
+            break
+    return out
+
+
+def combine_line(case):
+    raws = combine_parts(case)
+    return "concat %d %s" % (len(raws), " ".join(S.raw_to_tokens(r) for r in raws))
+
+
+# ------------------------------------------------------------------------------------------------
 # set_observed stream
 # ------------------------------------------------------------------------------------------------
 
@@ -943,6 +1078,20 @@ def run(ctx, res):
                 # numpy accepts a zero-length boolean index on a non-empty array (selects nothing); so does the model
                 res.count("setobs.zero-length-selection")
             tie.add("C12:setobs", setobs_line(case), out, case)
+        # ---- 5. combine / concat -------------------------------------------------------------------
+        for t in range(ctx.scale(150, 2000, 1000)):
+            case = gen_combine_case(rng, 6 if not thorough else rng.choice([6, 6, 20]))
+            try:
+                out = run_combine_case(case, res)
+            except Exception as e:
+                res.fail("constructor raises on a valid screen", case, "%s: %s" % (type(e).__name__, e), "a screen", signature=SIG_RAISES)
+                continue
+            res.evaluations += 1
+            res.count("combine.%s.%s" % (case["status"], "refused" if out.startswith("err:") else "ok"))
+            res.count("combine.parts.%d" % len(case["parts"]))
+            if case["odd"]:
+                res.count("combine.other-" + case["odd"])
+            tie.add("C12:combine", combine_line(case), out, case)
         tie.flush()
     finally:
         shutil.rmtree(tmp, ignore_errors=True)
@@ -950,6 +1099,12 @@ def run(ctx, res):
 
 def replay(ctx, case, res):
     kind = case.get("kind")
+    if kind == "combine":
+        try:
+            run_combine_case(case, res)
+        except Exception as e:
+            res.fail("constructor raises on a valid screen", case, "%s: %s" % (type(e).__name__, e), "a screen", signature=SIG_RAISES)
+        return
     if kind == "ctor":
         run_ctor_case(case, res)
         return
